@@ -8,7 +8,8 @@ impl VxDisplay for dc_fields::Priority {
 }
 impl VxFromStr for dc_fields::Priority {
     type VxErr = String;
-    open spec fn parse_spec(s: Seq<char>) -> Option<dc_fields::Priority> { priority_parse(s) }
+    open spec fn parse_rel(s: Seq<char>, v: dc_fields::Priority) -> bool { priority_parse(s) == Some(v) }
+    open spec fn parse_err(s: Seq<char>) -> bool { priority_parse(s) is None }
     fn vx_from_str(s: &str) -> (r: Result<dc_fields::Priority, String>) { dc_fields::Priority::from_str(s) }
 }
 
